@@ -11,7 +11,7 @@ def seeded_table():
         m = json.load(open(os.path.join(d, "meta.json")))
         name = os.path.basename(d)
         need = " ".join(m.get("what_it_needs_to_manifest", "").split())
-        need = re.sub(r"^#+\s*", "", need)[:260].replace("|", "/")
+        need = re.sub(r"^#+\s*", "", need)[:200].replace("|", "/")
         c = m["confirmed"]
         det = ", ".join("%s (%s)" % (k, v["first_bucket"][:50]) for k, v in m["checks_run"].items() if v["quick_exit"] == "1") or "MISSED"
         rows.append("| %s | %s | %s | %s | %s / %s | %s | %s |" % (
@@ -30,10 +30,19 @@ def findings_table():
     return "\n".join(rows)
 
 
+def strengthenings_list():
+    h = json.load(open(os.path.join(HERE, "seeded", "history.json")))
+    rows = []
+    for k in sorted(h, key=lambda x: (x.split("-")[0], int(x.split("-")[1]))):
+        v = h[k]
+        rows.append("* %s (%s): %s" % (k, v["first_contact"].split(";")[0][:90], v["strengthening"]))
+    return "\n".join(rows)
+
+
 def main():
     p = os.path.join(HERE, "DESIGN.md")
     s = open(p, encoding="utf-8").read()
-    for name, fn in (("seeded", seeded_table), ("findings", findings_table)):
+    for name, fn in (("seeded", seeded_table), ("findings", findings_table), ("strengthenings", strengthenings_list)):
         a, b = "<!-- BEGIN:%s -->" % name, "<!-- END:%s -->" % name
         if a in s and b in s:
             i, j = s.index(a) + len(a), s.index(b)
